@@ -4,7 +4,7 @@
 From Coq Require Import Permutation Sorting.Sorted Qround PrimFloat.
 From PV Require Import Lib.Common Model.C17_Sampling Proofs.C17_Sampling Model.C07_Config
   Proofs.C07_LocalOpt Proofs.C07_Tail Proofs.C07_Xmap Proofs.C07_Sort Proofs.C07_Tiled Proofs.C07_RealMateMo Proofs.C07_Integer Proofs.C07_MateExt
-  Gen.C07_Kernel Model.C07_KernelProg Proofs.C07_Kernel.
+  Gen.C07_Kernel Model.C07_KernelProg Proofs.C07_Kernel Proofs.C07_Space.
 
 (** * the tail of every individual-based configuration: outcross descent, then a shuffle within every cross.
     For every table, every oracle of exchange orders and every within-cross permutation: the entries are permuted, the number of
@@ -447,6 +447,74 @@ Example C07_uc_integer_bounds_hyps_satisfiable :
   length [2;1;3]%Z = 3%nat /\ old_uc_int_bounds 3 2 [2;1;3]%Z 3 = None /\
   old_uc_int_bounds 1 2 [3]%Z 3 = Some ([0;0;0]%Z, [6;6;6]%Z).
 Proof. repeat split. Qed.
+
+(** * the decision space of the protocols over a cross map (OptimalHaploidValue* / UsefulnessCriterion* Selection, all four
+    encodings, unique and repeatable parents) is the WHOLE map.  The programs are assembled from the expressions regenerated
+    from the eight problem() methods (which map is built, arange / repeat arguments, ndecn). *)
+Theorem C07_kernel_xmap_space_is_model : forall n k nc nm npg u, (0 < k)%nat ->
+  kspace_ohv_mate n k nc nm npg u = xmap_subset_space n k nc u /\
+  kspace_uc_mate n k nc nm npg u = xmap_subset_space n k nc u /\
+  kspace_ohv_imate n k nc nm npg u = xmap_vector_space 0%Z (ohv_int_upper nm npg) n k u /\
+  kspace_uc_imate n k nc nm npg u = xmap_vector_space 0%Z (uc_int_upper k nm) n k u /\
+  kspace_ohv_bmate n k nc nm npg u = xmap_vector_space 0%Z 1%Z n k u /\
+  kspace_uc_bmate n k nc nm npg u = xmap_vector_space 0%Z 1%Z n k u /\
+  kspace_ohv_rmate n k nc nm npg u = xmap_vector_space (0 # 1)%Q (1 # 1)%Q n k u /\
+  kspace_uc_rmate n k nc nm npg u = xmap_vector_space (0 # 1)%Q (1 # 1)%Q n k u.
+Proof.
+  intros n k nc nm npg u Hk.
+  exact (conj (kspace_ohv_mate_model n k nc nm npg u Hk) (conj (kspace_uc_mate_model n k nc nm npg u Hk)
+        (conj (kspace_ohv_imate_model n k nc nm npg u Hk) (conj (kspace_uc_imate_model n k nc nm npg u Hk)
+        (conj (kspace_ohv_bmate_model n k nc nm npg u Hk) (conj (kspace_uc_bmate_model n k nc nm npg u Hk)
+        (conj (kspace_ohv_rmate_model n k nc nm npg u Hk) (kspace_uc_rmate_model n k nc nm npg u Hk)))))))).
+Qed.
+Print Assumptions C07_kernel_xmap_space_is_model.
+
+(** subset encoding: the admissible members are exactly the row numbers of the map, every position may take every row (bounds
+    0 and len-1), there are ncross positions; every row of the enumeration is reachable by a member of the space *)
+Theorem C07_xmap_subset_space_whole_map : forall n k nc u, (0 < k)%nat ->
+  exists L, xmapix n k u = Some L /\
+    xmap_subset_space n k nc u = Some (map Z.of_nat (seq 0 (length L)), repeat 0%Z nc, repeat (Z.of_nat (length L) - 1)%Z nc, Z.of_nat nc) /\
+    (forall d, In d (map Z.of_nat (seq 0 (length L))) <-> (0 <= d < Z.of_nat (length L))%Z) /\
+    (forall t, In t L -> exists i, (i < length L)%nat /\ nth i L [] = t /\ In (Z.of_nat i) (map Z.of_nat (seq 0 (length L))) /\
+                                   (0 <= Z.of_nat i <= Z.of_nat (length L) - 1)%Z).
+Proof. exact xmap_subset_space_whole_map. Qed.
+Print Assumptions C07_xmap_subset_space_whole_map.
+
+(** vector encodings: one bounded decision variable per row of the map *)
+Theorem C07_xmap_vector_space_whole_map : forall (V : Type) (lo up : V) n k u, (0 < k)%nat ->
+  exists L, xmapix n k u = Some L /\
+    xmap_vector_space lo up n k u = Some (repeat lo (length L), repeat up (length L), Z.of_nat (length L)) /\
+    length (repeat lo (length L)) = length L /\ length (repeat up (length L)) = length L /\
+    (forall t, In t L -> exists i, (i < length L)%nat /\ nth i L [] = t /\ nth i (repeat lo (length L)) up = lo /\ nth i (repeat up (length L)) lo = up).
+Proof. exact xmap_vector_space_whole_map. Qed.
+Print Assumptions C07_xmap_vector_space_whole_map.
+
+(** the rows of the map; their number is comb(n, k) only when parents are unique *)
+Theorem C07_xmap_space_rows : forall n k u L, (0 < k)%nat -> xmapix n k u = Some L ->
+  (forall t, In t L <-> (length t = k /\ StronglySorted (if u then lt else le) t /\ Forall (fun i => (i < n)%nat) t)) /\
+  (u = true -> length L = binomial n k).
+Proof. exact xmap_space_rows. Qed.
+Print Assumptions C07_xmap_space_rows.
+
+(** regression witness: a subset space sized by comb(ntaxa, nparent) whatever unique_parents is misses the tail of the map *)
+Theorem C07_comb_sized_space_misses_tail : exists L,
+  xmapix 4 2 false = Some L /\ length L = 10%nat /\ length (comb_subset_space 4 2) = 6%nat /\
+  nth 9 L [] = [3; 3]%nat /\ nth 6 L [] = [1; 3]%nat /\
+  (forall d, In d (comb_subset_space 4 2) -> (d < 6)%Z) /\ ~ In 9%Z (comb_subset_space 4 2) /\
+  xmap_subset_space 4 2 1 false = Some ([0;1;2;3;4;5;6;7;8;9]%Z, [0]%Z, [9]%Z, 1%Z) /\
+  xmap_subset_space 4 2 1 true = Some (comb_subset_space 4 2, [0]%Z, [5]%Z, 1%Z).
+Proof. exact comb_subset_space_misses_tail. Qed.
+Print Assumptions C07_comb_sized_space_misses_tail.
+
+Example C07_xmap_space_hyps_satisfiable :
+  (0 < 2)%nat /\ xmapix 3 2 false = Some [[0;0];[0;1];[0;2];[1;1];[1;2];[2;2]]%nat /\
+  kspace_ohv_mate 3 2 2 [1;1]%Z [1;1]%Z false = Some ([0;1;2;3;4;5]%Z, [0;0]%Z, [5;5]%Z, 2%Z) /\
+  kspace_uc_mate 3 2 2 [1;1]%Z [1;1]%Z true = Some ([0;1;2]%Z, [0;0]%Z, [2;2]%Z, 2%Z) /\
+  kspace_ohv_imate 3 2 2 [2;1]%Z [3;1]%Z false = Some (repeat 0%Z 6, repeat 7%Z 6, 6%Z) /\
+  kspace_uc_imate 3 2 2 [2;1]%Z [3;1]%Z true = Some ([0;0;0]%Z, [6;6;6]%Z, 3%Z) /\
+  kspace_uc_bmate 3 2 2 [2;1]%Z [3;1]%Z false = Some (repeat 0%Z 6, repeat 1%Z 6, 6%Z) /\
+  kspace_ohv_rmate 3 2 2 [2;1]%Z [3;1]%Z true = Some (repeat (0 # 1)%Q 3, repeat (1 # 1)%Q 3, 3%Z).
+Proof. split; [repeat constructor|]. repeat split; vm_compute; reflexivity. Qed.
 
 Example C07_hyps_satisfiable :
   (* three selfed crosses, three descent passes, then a shuffle within every cross *)
